@@ -40,13 +40,13 @@ pub struct Stats {
     pub wall_ms: u64,
 }
 
-struct Item {
-    prefix: Vec<u8>,
-    expect_n: Vec<u8>,
-    cost: u32,
+pub struct Item {
+    pub prefix: Vec<u8>,
+    pub expect_n: Vec<u8>,
+    pub cost: u32,
 }
 
-fn children(item_len: usize, cost: u32, choices: &[ChoicePoint], c: u32, out: &mut Vec<Item>) {
+pub fn children(item_len: usize, cost: u32, choices: &[ChoicePoint], c: u32, out: &mut Vec<Item>) {
     for i in (item_len..choices.len()).rev() {
         let cp = choices[i];
         for alt in (1..cp.n).rev() {
